@@ -104,7 +104,7 @@ def _mk_ctor(degs, tier):
             else:
                 lo = (min(allx), min(ally))
                 hi = (max(allx), max(ally))
-            h.ensure(f"{name}-box-is-minmax-of-control-points", AND(EQ(b.lowpt[0], lo[0]), EQ(b.lowpt[1], lo[1]), EQ(b.toppt[0], hi[0]), EQ(b.toppt[1], hi[1])))
+            h.ensure(f"{name}-box-is-minmax-of-control-points", AND(EQ(b.lowpt[0], lo[0]), EQ(b.lowpt[1], lo[1]), EQ(b.toppt[0], hi[0]), EQ(b.toppt[1], hi[1])), free=True)
             h.ensure(f"{name}-segment-degrees", tuple(s.degree for s in j.segments) == tuple(degs))
             if mode == "Q":
                 h.ensure(f"{name}-exact-type", AND(*[AND(is_wellformed_fraction(p[0]), is_wellformed_fraction(p[1])) for v in view(j) for p in v]))
